@@ -30,6 +30,33 @@ pub trait Pooled: Sync {
     fn workers(&self) -> usize {
         std::thread::available_parallelism().map(|n| n.get()).unwrap_or(8).min(16)
     }
+    /// build profiles of the harness whose worker binaries run the cases ("checked", "dev", "release");
+    /// a case that names a profile (see `case_profile`) is run only by workers of that profile
+    fn profiles(&self) -> Vec<&'static str> {
+        vec!["checked"]
+    }
+    fn case_profile(&self, _c: &Self::Case) -> Option<String> {
+        None
+    }
+}
+
+pub fn my_profile() -> String {
+    std::env::var("MC_PROFILE").unwrap_or_else(|_| "checked".into())
+}
+
+fn exe_for(profile: &str) -> std::path::PathBuf {
+    let exe = std::env::current_exe().expect("current_exe");
+    let target = exe.parent().and_then(|d| d.parent()).expect("target dir").to_path_buf();
+    let dir = match profile {
+        "dev" => "debug",
+        other => other,
+    };
+    let p = target.join(dir).join("mc");
+    if !p.exists() {
+        eprintln!("ENGINE ERROR: worker binary {} is missing (build the {profile} profile of the harness first)", p.display());
+        std::process::exit(2);
+    }
+    p
 }
 
 const NONE: u64 = u64::MAX;
@@ -132,9 +159,14 @@ pub fn child<P: Pooled>(p: &P, tier: Tier, args: &[String]) -> i32 {
             if i % n != id || i < skip_to {
                 return;
             }
+            if let Some(pr) = p.case_profile(c) {
+                if pr != my_profile() {
+                    return;
+                }
+            }
             run_one(i, c, &mut st);
         });
-        st.add("enumerated", if id == 0 { idx } else { 0 });
+        st.add("enumerated", if id == 0 && my_profile() == p.profiles()[0] { idx } else { 0 });
     }
     let _ = writeln!(out.lock(), "{}", json!({"t": "stats", "s": st.to_json()}));
     let _ = writeln!(out.lock(), "{}", json!({"t": "done"}));
@@ -156,14 +188,15 @@ struct Segment {
     errpath: String,
 }
 
-fn spawn_segment(prop: &str, tier: Tier, id: usize, n: usize, skip_to: u64, case_file: Option<&str>) -> Segment {
-    let exe = std::env::current_exe().expect("current_exe");
+fn spawn_segment(prop: &str, profile: &str, tier: Tier, id: usize, n: usize, skip_to: u64, case_file: Option<&str>) -> Segment {
+    let exe = exe_for(profile);
     let dir = std::env::temp_dir().join(format!("mc-pool-{}", std::process::id()));
     let _ = std::fs::create_dir_all(&dir);
-    let cellpath = dir.join(format!("cell-{prop}-{id}")).display().to_string();
-    let errpath = dir.join(format!("err-{prop}-{id}")).display().to_string();
+    let cellpath = dir.join(format!("cell-{prop}-{profile}-{id}")).display().to_string();
+    let errpath = dir.join(format!("err-{prop}-{profile}-{id}")).display().to_string();
     let errf = std::fs::File::create(&errpath).expect("err file");
     let mut cmd = Command::new(exe);
+    cmd.env("MC_PROFILE", profile);
     cmd.arg("worker").arg(prop).arg(tier.name()).arg(id.to_string()).arg(n.to_string()).arg(skip_to.to_string()).arg(&cellpath);
     if let Some(cf) = case_file {
         cmd.arg("--case-file").arg(cf);
@@ -218,12 +251,19 @@ pub fn parent<P: Pooled>(p: &P, tier: Tier, replay_case: Option<&Value>) -> Pool
     let mut violations: Vec<Violation> = vec![];
     let mut crashed: Vec<(u64, String)> = vec![];
     let mut caps = vec![];
-    let mut segs: Vec<Option<Segment>> = (0..n).map(|id| Some(spawn_segment(prop, tier, id, n, 0, case_file.as_deref()))).collect();
+    // one slice of n workers per profile; slot k runs slice id k % n with the binary of profile k / n
+    let profiles: Vec<String> = match replay_case.and_then(|c| p.case_from_json(c)).map(|c| p.case_profile(&c)) {
+        Some(Some(pr)) => vec![pr],
+        Some(None) => vec![p.profiles()[0].to_string()],
+        None => p.profiles().iter().map(|s| s.to_string()).collect(),
+    };
+    let slots = n * profiles.len();
+    let mut segs: Vec<Option<Segment>> = (0..slots).map(|k| Some(spawn_segment(prop, &profiles[k / n], tier, k % n, n, 0, case_file.as_deref()))).collect();
     let max_crashes = 400;
     let mut engine_errors = 0;
     loop {
         let mut alive = 0;
-        for id in 0..n {
+        for id in 0..slots {
             let Some(seg) = segs[id].as_mut() else { continue };
             alive += 1;
             // drain messages
@@ -268,7 +308,7 @@ pub fn parent<P: Pooled>(p: &P, tier: Tier, replay_case: Option<&Value>) -> Pool
                                 }
                                 segs[id] = None;
                             } else {
-                                segs[id] = Some(spawn_segment(prop, tier, id, n, idx + 1, None));
+                                segs[id] = Some(spawn_segment(prop, &profiles[id / n], tier, id % n, n, idx + 1, None));
                             }
                         }
                     }
